@@ -230,10 +230,12 @@ def SH_TASKS(tier, race=False):
         for typ in ("model", "collection"):
             ts += explore("SH1-mock-" + typ, w2, 1 if race else 2, shards=4, race=race, timeout="100s")
         ts += explore("SH1-badger-prefix-collection", w1, 0 if race else 1, shards=4, race=race, timeout="100s")
+        ts += explore("SH2-badger-prefix-collection", w2, 2, shards=4, race=race, timeout="100s")
     else:
         for typ in ("model", "collection"):
             ts += explore("SH1-mock-" + typ, w2, 2 if race else 3, shards=8, race=race, timeout="10m")
             ts += explore("SH1-badger-prefix-" + typ, w1 if race else w2, 1 if race else 2, shards=8, race=race, timeout="10m")
+            ts += explore("SH2-badger-prefix-" + typ, w2, 3, shards=8, race=race, timeout="10m")
     return ts
 
 
